@@ -1,5 +1,133 @@
-(* C08 — property theorems (placeholder until the model is built). *)
-From WI Require Import Lib.Base Lib.Info Model.Cost Proofs.Cost.
-Theorem C08_placeholder : True.
-Proof. exact I. Qed.
-Print Assumptions C08_placeholder.
+(* C08 — resource use is bounded by input size.
+   Only statements; proofs are in Proofs/Cost.v.  The models (Model/Cost.v) log every modelled
+   allocation: Make sz rem = make([]T, k) of sz bytes requested when rem input bytes were left,
+   Grow sz = growth of a buffer driven by bytes that actually arrived (io.ReadAll, append). *)
+From WI Require Import Lib.Base Lib.Info Model.Base64 Model.Cost Proofs.Cost.
+Open Scope N_scope.
+
+(* ---- at most the first 128 MB of any input are read, also of an endless one ---- *)
+Theorem C08_read_cap : forall s : stream, (length (read_input s) <= N.to_nat max_read_size)%nat.
+Proof. exact read_cap. Qed.
+Print Assumptions C08_read_cap.
+
+(* T1: the cap regenerated from the running code (file.MaxReadSize) is the property's 128 MB *)
+Theorem C08_read_cap_is_128MB : max_read_size = 128000000.
+Proof. vm_compute. reflexivity. Qed.
+Print Assumptions C08_read_cap_is_128MB.
+
+Theorem C08_read_endless : forall f, length (read_input (mkstream f None)) = N.to_nat max_read_size.
+Proof. exact read_input_endless. Qed.
+Print Assumptions C08_read_endless.
+
+Theorem C08_read_finite : forall data, read_input (stream_of data) = firstn (N.to_nat max_read_size) data.
+Proof. exact read_input_finite. Qed.
+Print Assumptions C08_read_finite.
+
+(* ---- length, count and size fields are never trusted to size an allocation ----
+   every allocation made from a length is backed by the bytes that remain, or is at most 8 KiB *)
+Theorem C08_lengths_not_trusted_ssh1 : forall data plain sz rem,
+  In (Make sz rem) (snd (ssh1_parse data plain)) -> sz <= rem \/ sz <= 8192.
+Proof.
+  intros data plain sz rem H. destruct (ssh1_parse_spec data plain) as [_ O].
+  unfold log_ok in O. rewrite Forall_forall in O. exact (O _ H).
+Qed.
+Print Assumptions C08_lengths_not_trusted_ssh1.
+
+(* the 16-bit bit count of an MPI: at most 8 KiB whatever follows *)
+Theorem C08_lengths_not_trusted_pgp_mpi : forall r a,
+  bytes_ok r = true -> In a (snd (pgp_read_mpi r)) -> alloc_sz a <= 8192.
+Proof. intros r a B H. destruct (pgp_mpi_spec r B) as [_ [_ P]]. exact (P a H). Qed.
+Print Assumptions C08_lengths_not_trusted_pgp_mpi.
+
+Example C08_pgp_mpi_example :
+  bytes_ok [255; 255; 1; 2; 3] = true /\ cost_of (pgp_read_mpi [255; 255; 1; 2; 3]) = 8194.
+Proof. vm_compute. split; reflexivity. Qed.
+
+(* packet bodies (old/new/partial/indeterminate lengths): the only made-from-length requests of
+   the packet loop are fixed-size buffers; bodies are read with io.ReadAll (Grow entries) *)
+Theorem C08_lengths_not_trusted_pgp_bodies : forall data sz rem,
+  In (Make sz rem) (snd (pgp_opaque_all data)) -> sz <= rem \/ sz <= 8192.
+Proof. exact pgp_opaque_makes_const. Qed.
+Print Assumptions C08_lengths_not_trusted_pgp_bodies.
+
+(* DER: ParseRaw allocates nothing from a length field; Bytes/FullBytes are slices of the input *)
+Theorem C08_der_no_allocation_from_lengths : forall data a,
+  In a (snd (der_parse_raw data)) -> exists s, a = Grow s.
+Proof. exact der_parse_grow_only. Qed.
+Print Assumptions C08_der_no_allocation_from_lengths.
+
+(* ---- allocation is linear in the input, per modelled component; constants from the proofs ---- *)
+Theorem C08_alloc_linear_read : forall n, read_input_cost n <= 7 * n + 512.
+Proof. exact read_input_cost_bound. Qed.
+Print Assumptions C08_alloc_linear_read.
+
+Theorem C08_alloc_linear_ssh1 : forall data plain,
+  cost_of (ssh1_parse data plain) <= 10 * lenN data + 600.
+Proof. intros. destruct (ssh1_parse_spec data plain) as [H _]. exact H. Qed.
+Print Assumptions C08_alloc_linear_ssh1.
+
+Theorem C08_alloc_linear_pgp_packets : forall data,
+  cost_of (pgp_opaque_all data) <= 520 * lenN data + 1548.
+Proof. intros. destruct (pgp_opaque_spec data) as [H _]. exact H. Qed.
+Print Assumptions C08_alloc_linear_pgp_packets.
+
+Theorem C08_alloc_linear_der : forall data, cost_of (der_parse_raw data) <= 216 * lenN data.
+Proof. intros. destruct (der_parse_spec data) as [H _]. exact H. Qed.
+Print Assumptions C08_alloc_linear_der.
+
+Theorem C08_alloc_linear_base64 : forall data, cost_of (b64_decode_any data) <= lenN data.
+Proof. intros. destruct (b64_spec data) as [H _]. exact H. Qed.
+Print Assumptions C08_alloc_linear_base64.
+
+(* Full statement (DESIGN 4/C08):
+     forall lib name data, ~ known_C08 name data ->
+       cost_of (inspect_cost lib name data) <= K * length data + C
+   Proved here for every modelled component of the repository's own code, with K = 520 and
+   C = 8194 yielded by the proofs, together with "no request trusts a length field".
+   Missing for the full statement: the interiors of the library oracles (crypto/x509,
+   encoding/json, encoding/pem, x/crypto/ssh, putty-go) and the typed OpenPGP packet parsers
+   and armor reader, whose allocation is measured per case against 1024*n + 1 MiB, not proved. *)
+Theorem C08_alloc_linear_partial : forall comp data aux l,
+  bytes_ok data = true -> in_repo comp = true -> component_log comp data aux = Some l ->
+  log_cost l <= 520 * lenN data + 8194 /\
+  (forall sz rem, In (Make sz rem) l -> sz <= rem \/ sz <= 8192).
+Proof.
+  intros comp data aux l B R H. destruct (alloc_linear comp data aux l B R H) as [H1 H2].
+  split; [exact H1|]. intros sz rem I. unfold log_ok in H2. rewrite Forall_forall in H2. exact (H2 _ I).
+Qed.
+Print Assumptions C08_alloc_linear_partial.
+
+Example C08_alloc_linear_nonvacuous :
+  let data := ssh1_header ++ [0; 0;0;0;0; 0;0;0;0] ++ [0;8;200] ++ [0;2;3] ++ [0;0;0;2;104;105] ++ [1;2;1;2] ++ [0;1;1; 0;1;1; 0;1;1; 0;1;1] in
+  bytes_ok data = true /\ in_repo (bs "ssh1") = true /\
+  exists l, component_log (bs "ssh1") data [] = Some l /\ log_cost l = 55 /\ is_ok (fst (ssh1_parse data [])) = true.
+Proof. exact alloc_linear_example. Qed.
+
+(* ---- recursion depth of the ASN.1 dump: at most half the input length (stack bound) ---- *)
+Theorem C08_der_depth : forall data items l,
+  der_parse_raw data = (Ok items, l) -> (2 * raws_depth items <= length data)%nat.
+Proof. exact der_depth. Qed.
+Print Assumptions C08_der_depth.
+
+(* ---- refutations ---- *)
+(* F4 (repaired by 4d736f1): the SSH1 reader before the repair asked for 2.5 GB on a 50-byte file;
+   the repaired reader allocates 17 bytes on the same file *)
+Theorem C08_ssh1_before_repair_refuted :
+  exists data, lenN data = 50 /\ 2583691264 <= cost_of (ssh1_parse_gen false data []) /\
+               cost_of (ssh1_parse data []) = 17.
+Proof.
+  exists ssh1_f4_witness. destruct ssh1_prefix_refuted as [H1 H2]. split; [exact H1|]. split; [exact H2|exact ssh1_f4_repaired].
+Qed.
+Print Assumptions C08_ssh1_before_repair_refuted.
+
+(* F25, known findings: the third-party JKS and RPM readers size allocations from length and
+   count fields: more than 2^30 bytes for inputs below 8 KiB *)
+Theorem C08_jks_refuted : exists data,
+  lenN data < 8192 /\ 1073741824 < cost_of (jks_parse data) /\ log_trusting (snd (jks_parse data)) = true.
+Proof. exists jks_witness. exact jks_refuted. Qed.
+Print Assumptions C08_jks_refuted.
+
+Theorem C08_rpm_refuted : exists data,
+  lenN data < 8192 /\ 1073741824 < cost_of (rpm_parse data) /\ log_trusting (snd (rpm_parse data)) = true.
+Proof. exists rpm_witness. exact rpm_refuted. Qed.
+Print Assumptions C08_rpm_refuted.
